@@ -345,6 +345,10 @@ func (e *Evaluator) evalCaseMatch(value *Cell, exprs []Expr) (bool, map[string]*
 			if err != nil {
 				return false, nil, err
 			}
+			if value.Value.Tag == ValueUnknown {
+				// like with ==, an unset value isn't equal to any literal
+				continue
+			}
 			cmp, err := value.Value.Compare(&caseValue.Value)
 			if err != nil {
 				return false, nil, e.error(expr.Token(), err.Error())
